@@ -139,6 +139,7 @@ class ApplyMixin:
             z3.ForAll([s, x], z3.And(v.slen(f(s, x)) == z3.If(v.shas(s, x), v.slen(s) - 1, v.slen(s)), v.ty(f(s, x)) == v.cls["list"]), patterns=[f(s, x)]),
             z3.ForAll([s, x, y], z3.Implies(z3.Not(v.pyeq(y, x)), v.shas(f(s, x), y) == v.shas(s, y)), patterns=[v.shas(f(s, x), y)]),
             z3.ForAll([s, x, y], z3.Implies(v.shas(f(s, x), y), v.shas(s, y)), patterns=[v.shas(f(s, x), y)]),
+            z3.ForAll([s, x], z3.Implies(v.distinct(s), z3.And(v.distinct(f(s, x)), z3.Not(v.shas(f(s, x), x)))), patterns=[f(s, x)]),
         ]
 
     def ensure_insert_axioms(self):
